@@ -244,3 +244,11 @@ func truncAll(xs []string, n int) []string {
 	}
 	return out
 }
+
+func init() {
+	Assumptions["C14"] = append([]string{
+		"observable result = verdict (nil / non-nil), marshaled bytes, Resolve ok/err; error text is not part of it (it legitimately depends on which of two failing properties is visited first)",
+		"documents returned by the Loader are owned by the resolver and are outside the purity oracle",
+		"the fingerprint sees exported fields, map entries, slice elements, dynamic types and pointer aliasing; slice capacity is not observed",
+	}, CommonAssumptions...)
+}
